@@ -1,2 +1,109 @@
--- line-protocol driver for C15 (stub; replaced when the property is built)
-def main : IO Unit := IO.println "stub"
+import Verif.Model.SCEP
+/-!
+  Line-protocol driver for C15 (SCEP PKI operation).
+
+  `facts`                                   → the message-type sets of `Verif.SCEP.asCoded`, rendered exactly
+                                              like the harness's source extractor renders what it finds
+  `pki http= p7= tid= mt=x<hex>|! sn=ok|empty|none st=x<hex>|! rn= fi= inner= dec=
+       env=csr|badsig|nocsr|cperr cp=x<hex> degen=<n>|! signok= encok=
+       secret=x<hex> hooks=<kind>:<ct>:<a|d|e>,…|-`
+  Output: ok … | fail:<info> … | http5xx … | crash … | parse-error
+-/
+open Verif Verif.SCEP
+
+namespace C15
+
+def str? (t : String) : Option Str :=
+  if t.startsWith "x" then unhex (t.drop 1).toString else none
+
+def optStr? (t : String) : Option (Option Str) :=
+  if t = "!" then some none else (str? t).map some
+
+def bool? (t : String) : Option Bool :=
+  if t = "1" then some true else if t = "0" then some false else none
+
+def attr? : String → Option Attr
+  | "ok" => some .ok | "empty" => some .empty | "none" => some .none | _ => none
+
+def env? : String → Option Env
+  | "csr" => some .csr | "badsig" => some .badsig | "nocsr" => some .nocsr | "cperr" => some .cperr | _ => none
+
+def degen? (t : String) : Option (Option Nat) :=
+  if t = "!" then some none else t.toNat?.map some
+
+def hook? (t : String) : Option Hook :=
+  match t.splitOn ":" with
+  | [k, ct, r] => do
+    let k ← match k with | "scep" => some HookKind.scep | "notify" => some .notify | _ => none
+    let ct ← match ct with
+      | "x509" => some CertType.x509 | "ssh" => some .ssh | "all" => some .all | "none" => some .unset | _ => none
+    let r ← match r with | "a" => some HookRes.allow | "d" => some .deny | "e" => some .error | _ => none
+    pure ⟨k, ct, r⟩
+  | _ => none
+
+def hooks? (t : String) : Option (List Hook) :=
+  if t = "-" then some [] else (t.splitOn ",").mapM hook?
+
+def lookup (kv : List (String × String)) (k : String) : Option String :=
+  (kv.find? (·.1 = k)).map (·.2)
+
+def typeS (t : MsgType) : String := String.ofList (t.map Char.ofNat)
+
+def listS (l : List MsgType) : String :=
+  if l.isEmpty then "-" else ",".intercalate (l.map typeS)
+
+def factsS (F : Facts) : String :=
+  s!"parsed_certrep={listS F.parsedCertRep} parsed_csr={listS F.parsedCsr} parsed_rej={listS F.parsedRej} parsed_default=rej " ++
+  s!"dec_certrep={listS F.decCertRep} dec_csr={listS F.decCsr} dec_err={listS F.decErr} " ++
+  s!"dec_default={if F.decDefaultErr then "err" else "fall"} checked={if F.checkAll then "*" else listS F.checked}"
+
+def replyS (r : Reply) : String :=
+  let signer := if r.signedByCA then "ca" else "other"
+  match r.status with
+  | .success =>
+    -- pk / nonce: the harness's own checks on a success reply (issued key = CSR key, nonce echoed)
+    s!"ok inner={r.inner} outer={r.outer} signer={signer} enc={if r.encrypted then 1 else 0} pk=1 nonce=1"
+  | .failure =>
+    let fi := match r.failInfo with | some n => toString n | none => ""
+    s!"fail:{fi} inner={r.inner} outer={r.outer} signer={signer} nonce=1"
+
+def resultS : M Result → String
+  | .crash => "crash hooks=0 db=0"
+  | .val r =>
+    let head := match r.out with
+      | .http500 => "http5xx"
+      | .reply rp => replyS rp
+    s!"{head} hooks={r.hookCalls} db={r.stored}"
+
+def eval (line : String) : Option String := do
+  let fs := fields line
+  match fs with
+  | "facts" :: _ => pure (factsS asCoded)
+  | "pki" :: rest =>
+    let kv := rest.filterMap fun f =>
+      match f.splitOn "=" with
+      | [k, v] => some (k, v)
+      | _ => none
+    let q : Req := {
+      httpOk := ← bool? (← lookup kv "http")
+      p7Ok := ← bool? (← lookup kv "p7")
+      tidOk := ← bool? (← lookup kv "tid")
+      mt := ← optStr? (← lookup kv "mt")
+      sn := ← attr? (← lookup kv "sn")
+      st := ← optStr? (← lookup kv "st")
+      rn := ← attr? (← lookup kv "rn")
+      fi := ← attr? (← lookup kv "fi")
+      innerOk := ← bool? (← lookup kv "inner")
+      decOk := ← bool? (← lookup kv "dec")
+      env := ← env? (← lookup kv "env")
+      cp := ← str? (← lookup kv "cp")
+      degen := ← degen? (← lookup kv "degen")
+      signOk := ← bool? (← lookup kv "signok")
+      encOk := ← bool? (← lookup kv "encok") }
+    let c : Config := { secret := ← str? (← lookup kv "secret"), hooks := ← hooks? (← lookup kv "hooks") }
+    pure (resultS (pkiOperation asCoded c q))
+  | _ => none
+
+end C15
+
+def main : IO Unit := Verif.lineLoop fun l => (C15.eval l).getD "parse-error"
